@@ -117,6 +117,107 @@ def make_funnel():
     return factory
 
 
+# ---------------------------------------------------------------- every rule on every shape of a construct
+# A construct family = a template with named slots; every slot has alternatives, incl. the forms the grammar allows but
+# nobody writes (a CASE without WHEN, a one-argument CONVERT, a CTE followed by a bracketed query ...).
+NESTED_CASE = ["CASE{s} {w} {e}END".format(s=s, w=w, e=e) for s in ("", " x") for w in ("", "WHEN 1 THEN 'a'", "WHEN a THEN 1 WHEN b THEN 2")
+               for e in ("", "ELSE 'z' ")]
+FAMILIES = {
+    "case": ("SELECT CASE{subject} {whens} {else_}END{alias} FROM t\n", {
+        "subject": ["", " x"],
+        "whens": ["", "WHEN 1 THEN 'a'", "WHEN a THEN TRUE", "WHEN a IS NULL THEN b", "WHEN 1 THEN 'a' WHEN 2 THEN 'b'"],
+        "else_": ["", "ELSE 'c' ", "ELSE FALSE ", "ELSE NULL ", "ELSE a "] + [f"ELSE {n} " for n in NESTED_CASE],
+        "alias": ["", " AS c"]}),
+    "cast": ("SELECT {c1}, {c2}{c3} FROM t\n", {
+        "c1": ["CAST(1 AS int)", "1::int", "CONVERT(int, 1)", "CONVERT(x)", "CAST(x)", "CONVERT(int, 1, 2)", "a"],
+        "c2": ["CAST(b AS text)", "b::text", "CONVERT(y)", "CONVERT(text, b)", "CONVERT()", "b::text::int", "CAST(b AS text)::int"],
+        "c3": ["", ", CONVERT(z)", ", c::int"]}),
+    "cte": ("WITH a AS (SELECT 1){after}{main}\n", {
+        "after": [" ", "\n", ", b AS (SELECT 2) ", " -- c\n", ",\nb AS (SELECT 2)\n", " /* c */ "],
+        "main": ["SELECT * FROM a", "(SELECT 2)", "INSERT INTO t SELECT * FROM a", "SELECT 1 UNION ALL SELECT 2", "(SELECT 1) UNION (SELECT 2)"]}),
+    "select": ("SELECT{mod} {t1}{t2} FROM {tbl}{join}{tail}\n", {
+        "mod": ["", " DISTINCT"],
+        "t1": ["a", "a AS b", "a b", "*", "t.*", "count(*)", "1", "t.a"],
+        "t2": ["", ", b", ", a", ",b AS a"],
+        "tbl": ["t", "t AS u", "t u", "(SELECT 1) AS s", "s.t"],
+        "join": ["", " JOIN v ON t.a = v.a", " JOIN v USING (a)", ", v", " LEFT JOIN v ON v.a = t.a AND 1 = 1"],
+        "tail": ["", " GROUP BY 1", " ORDER BY a DESC, b", " WHERE a IS NULL", " LIMIT 1"]}),
+}
+OPTION_SETS = {
+    "default": {},
+    "casting=cast": {"convention.casting_style": {"preferred_type_casting_style": "cast"}},
+    "casting=convert": {"convention.casting_style": {"preferred_type_casting_style": "convert"}},
+    "casting=shorthand": {"convention.casting_style": {"preferred_type_casting_style": "shorthand"}},
+}
+_LINTERS = {}
+
+
+def _linter(dialect, opt):
+    if (dialect, opt) not in _LINTERS:
+        cfg = FluffConfig(overrides={"dialect": dialect}, configs={"rules": OPTION_SETS[opt]} if OPTION_SETS[opt] else None)
+        _LINTERS[(dialect, opt)] = Linter(config=cfg)
+    return _LINTERS[(dialect, opt)]
+
+
+def internal_failures(sql, dialect, opt, fix):
+    import logging
+    logging.disable(logging.CRITICAL)
+    try:
+        lf = _linter(dialect, opt).lint_string(sql, fix=fix)
+    finally:
+        logging.disable(logging.NOTSET)
+    return [f"{v.rule_code()}: {v.desc()[:90]}" for v in lf.get_violations() if "Unexpected exception" in v.desc()], \
+        any(v.rule_code() == "PRS" for v in lf.get_violations())
+
+
+def _slots(fam):
+    return list(FAMILIES[fam][1])
+
+
+def family(fam, cap):
+    """Template and slots of a family; `cap` keeps only the first `cap` alternatives of every slot (quick tier / extra dialects)."""
+    tmpl, slots = FAMILIES[fam]
+    return tmpl, ({k: v[:cap] for k, v in slots.items()} if cap else slots)
+
+
+def make_family(fam, dialect, cap=None):
+    def factory(excluded=frozenset()):
+        def harness(c):
+            tmpl, slots = family(fam, cap)
+            vals = {k: choose(c, k, alts) for k, alts in slots.items()}
+            sql = tmpl.format(**vals)
+            opt = choose(c, "rule_options", list(OPTION_SETS) if fam == "cast" else ["default"])
+            fix = bool(choose(c, "fix_mode", [False, True]))
+            if any(pat in sql for pat in excluded_patterns(excluded)):
+                from symlite.core import Abort
+                raise Abort()
+            bad, prs = internal_failures(sql, dialect, opt, fix)   # REAL: parse + every rule's crawl/_eval (+ fix loop)
+            if not prs:
+                c.witness("parsable")
+            if fix:
+                c.witness("fix_mode")
+            return not bad
+        return harness
+    return factory
+
+
+def excluded_patterns(excluded):
+    return []
+
+
+def replay_family(fam, dialect, cap=None):
+    def rp(cex):
+        tmpl, slots = family(fam, cap)
+        vals = {k: alts[int(cex.get(k, 0))] for k, alts in slots.items()}
+        sql = tmpl.format(**vals)
+        opts = list(OPTION_SETS) if fam == "cast" else ["default"]
+        opt = opts[int(cex.get("rule_options", 0))]
+        fix = bool([False, True][int(cex.get("fix_mode", 0))])
+        bad, _ = internal_failures(sql, dialect, opt, fix)
+        return f"{dialect}, rule options {opt}, {'fix' if fix else 'lint'}: {sql!r} -> {bad[:2]}" if bad else None
+    return rp
+
+
 def units(tier, seed):
     m = 4 if tier == "quick" else 6
     return [
@@ -125,6 +226,21 @@ def units(tier, seed):
              stubs=["context.segment -> stub whose iter_segments yields real raw segments of the forked kinds", "config -> 'trailing'"],
              outside=["the other ~70 rules' _eval bodies"], witnesses_required=["violation_reported", "nothing_but_commas_and_noncode_follows"],
              sharded=True, timeout_s=600 if tier == "quick" else 1800),
+    ] + [
+        Unit(name=f"c05.rules_on_construct[{fam},{dialect}{',first ' + str(cap) + ' alternatives per slot' if cap else ''}]",
+             functions=["every bundled rule's _eval via sqlfluff.core.rules.base.BaseRule.crawl", "Linter.lint_string / lint_fix_parsed (lint and fix mode)"],
+             bounds={"construct": FAMILIES[fam][0], "slots": {k: len(v) for k, v in family(fam, cap)[1].items()}, "dialect": dialect,
+                     "rule options": list(OPTION_SETS) if fam == "cast" else ["default"], "mode": "lint / fix"},
+             make=make_family(fam, dialect, cap), replay=replay_family(fam, dialect, cap),
+             stubs=["none: real lexer, parser, rules; the slot alternatives are solver-forked"],
+             outside=["constructs and slot values not listed", "dialects not listed"],
+             witnesses_required=["parsable", "fix_mode"], sharded=True, timeout_s=900 if tier == "quick" else 3000)
+        for fam, dialect, cap in (
+            [("case", "ansi", None), ("cast", "ansi", 4), ("cte", "ansi", None), ("select", "ansi", 3)] if tier == "quick" else
+            [("case", d, None) for d in ("ansi", "postgres", "tsql", "bigquery", "snowflake")] +
+            [("cast", d, None) for d in ("ansi", "postgres", "tsql")] + [("cte", d, None) for d in ("ansi", "postgres", "tsql", "bigquery", "snowflake")] +
+            [("select", "ansi", 4), ("select", "postgres", 3), ("select", "tsql", 3)])
+    ] + [
         Unit(name="c05.crawl_exception_funnel", functions=["sqlfluff.core.rules.base.BaseRule.crawl"],
              bounds={"visit at which _eval raises": "none or any"}, make=make_funnel(), replay="concrete",
              witnesses_required=["raised"], sharded=False, timeout_s=120),
